@@ -252,6 +252,14 @@ def readFrames (k ch : Nat) : Nat → List UInt8 → List (List Nat)
     if (bs.take (ch * k)).length < ch * k then []
     else readSamples k ch (bs.take (ch * k)) :: readFrames k ch n (bs.drop (ch * k))
 
+/-- the file-level decoder: what a WAV file says (spec) and the sample codes of its data chunk.
+    (`parse` is the demuxer model, `readSamples` the codec's sample reader.) -/
+def decodeFile (bs : List UInt8) : Option (Spec × List Nat) :=
+  match parse bs with
+  | .ok ⟨some fc, dataLen, data⟩ =>
+    some (⟨fc.fmt, fc.channels, fc.rate⟩, readSamples fc.fmt.bytes (dataLen / fc.fmt.bytes) (data.take dataLen))
+  | _ => none
+
 /-- two's complement value of a `bits`-bit code -/
 def toSigned (bits code : Nat) : Int :=
   if code < 2 ^ (bits - 1) then (code : Int) else (code : Int) - (2 ^ bits : Nat)
